@@ -50,6 +50,9 @@ func (fc *FnCtx) execBlock(s *State, fn *ssa.Function, b *ssa.BasicBlock, i int,
 				fc.jump(s, fn, b, b.Succs[1], k)
 				return
 			}
+			if fc.execIfMerged(s, fn, b, c.T, k) {
+				return
+			}
 			s2 := s.clone()
 			s.assume(c.T)
 			s.trace = append(s.trace, fmt.Sprintf("b%d:T", b.Index))
@@ -95,6 +98,10 @@ func (fc *FnCtx) execBlock(s *State, fn *ssa.Function, b *ssa.BasicBlock, i int,
 
 func (fc *FnCtx) jump(s *State, fn *ssa.Function, from, to *ssa.BasicBlock, k retK) {
 	s.prev = from
+	if n := len(s.stopAt); n > 0 && s.stopAt[n-1].b == to {
+		s.stopAt[n-1].f(s)
+		return
+	}
 	fc.execBlock(s, fn, to, 0, k)
 }
 
@@ -273,6 +280,11 @@ func (fc *FnCtx) execInstr(s *State, fn *ssa.Function, in ssa.Instruction) {
 		}
 		s.regs[x] = t.Elems[x.Index]
 	case *ssa.Phi:
+		if s.phiDone == x.Block() {
+			if _, ok := s.regs[x]; ok {
+				return
+			}
+		}
 		found := false
 		for i, p := range x.Block().Preds {
 			if p == s.prev {
